@@ -1,4 +1,18 @@
+//! h_pattern2: C04 (partition independence), C09 (filter in `.where` vs. sequence step),
+//! C25 (trend-aggregation counts and sharing invariance) — see DESIGN.md §3.
+
+mod c04;
+mod c09;
+mod c25;
+mod common;
+
 fn main() {
     let args = mc::parse_args();
-    mc::machinery_error(&format!("{} is not built yet", args.prop));
+    mc::quiet_panics();
+    match args.prop.as_str() {
+        "C04" => c04::run(&args),
+        "C09" => c09::run(&args),
+        "C25" => c25::run(&args),
+        other => mc::machinery_error(&format!("h_pattern2 serves C04, C09 and C25, not {other}")),
+    }
 }
